@@ -12,9 +12,10 @@ import SqlfluffVerif.Driver.Slices
 import SqlfluffVerif.Driver.Exit
 import SqlfluffVerif.Driver.Discovery
 import SqlfluffVerif.Driver.WritePath
+import SqlfluffVerif.Driver.Config
 open SqlfluffVerif SqlfluffVerif.Proto SqlfluffVerif.Driver
 
-def handlers : List (List String → Option String) := [handlePos, handlePatch, handleDedupe, handleNoqa, handleSelect, handleMR, handleTreeSpec, handleLexer, handleLexSpec, handleSlices, handleExit, handleDiscovery, handleWritePath]
+def handlers : List (List String → Option String) := [handlePos, handlePatch, handleDedupe, handleNoqa, handleSelect, handleMR, handleTreeSpec, handleLexer, handleLexSpec, handleSlices, handleExit, handleDiscovery, handleWritePath, handleConfig]
 
 def handle (toks : List String) : String :=
   match toks with
